@@ -10,6 +10,22 @@ use yash_env::semantics::exit_or_raise;
 use yash_env::system::{Concurrent, Disposition, Sigaction as _, Signals as _};
 
 pub fn real_shell_main(args: Vec<String>) -> ! {
+    // The real shell starts from the state the simulated one starts from: every
+    // signal with its default action and unblocked - however the check itself
+    // was started (a background job of a non-interactive shell, `nohup` and
+    // some service managers hand down ignored SIGINT / SIGQUIT / SIGHUP / SIGPIPE,
+    // which a shell can then neither trap nor be killed by).
+    // SAFETY: plain libc calls before anything else runs in this process
+    unsafe {
+        for sig in 1..32 {
+            if sig != libc::SIGKILL && sig != libc::SIGSTOP {
+                libc::signal(sig, libc::SIG_DFL);
+            }
+        }
+        let mut all: libc::sigset_t = std::mem::zeroed();
+        libc::sigfillset(&mut all);
+        libc::sigprocmask(libc::SIG_UNBLOCK, &all, std::ptr::null_mut());
+    }
     // SAFETY: the only RealSystem instance in this (single-threaded) process.
     let system = unsafe { RealSystem::new() };
     system.sigaction(RealSystem::SIGPIPE, Disposition::Default).ok();
